@@ -59,6 +59,11 @@ pub fn pool(tier: &str) -> Vec<Term> {
       v.push(Term::replace(Term::orig("abcdef\n", "p.js"), perm.iter().map(|&i| base[i].clone()).collect()));
     }
   }
+  // children without text that still carry map information
+  v.push(Term::concat(vec![o("a"), Term::orig("", "e.js")]));
+  v.push(Term::concat(vec![Term::orig("", "e.js"), o("a;b"), Term::raw("")]));
+  v.push(Term::concat(vec![o("a"), Term::replace(Term::orig("zz", "gone.js"), vec![Repl::new(0, 2, "")])]));
+  v.push(Term::cached(Term::concat(vec![Term::raw("x"), Term::orig("", "e.js")])));
   v.push(Term::cached(Term::replace(o("a\nb"), vec![Repl::new(1, 2, "")])));
   v.push(Term::cached(Term::cached(o("a"))));
   v.push(Term::concat(vec![Term::cached(o("a;b")), Term::replace(Term::raw("x"), vec![Repl::new(0, 0, "y")])]));
@@ -474,6 +479,13 @@ pub fn edits(t: &Term) -> Vec<(String, Term)> {
       let mut c = children.clone();
       c.insert(0, Term::raw("x"));
       out.push(("concat.add_child_front".into(), mk(c)));
+      // a child that contributes no text but a source to the map
+      let mut c = children.clone();
+      c.push(Term::orig("", "added-empty.js"));
+      out.push(("concat.add_empty_original_child".into(), mk(c)));
+      let mut c = children.clone();
+      c.insert(0, Term::replace(Term::orig("q", "added-emptied.js"), vec![Repl::new(0, 1, "")]));
+      out.push(("concat.add_emptied_original_child".into(), mk(c)));
       for i in 0..children.len() {
         let mut c = children.clone();
         c.remove(i);
